@@ -53,6 +53,70 @@ def random_case(rng, max_states=5, max_syms=3, kinds=("enfa", "nfa", "dfa"), vcs
         case["sperm"] = sperm
     if rng.random() < 0.5:
         case["shuffle"] = rng.randrange(1 << 30)
+    if kind == "enfa" and rng.random() < 0.06:
+        # an automaton without any input symbol: every transition is an epsilon move
+        case["trans"] = sorted([p, EPSID, q] for p, q in {(t[0], t[2]) for t in trans})
+        case["extra"] = []
+        case["eps_only"] = True
+    if rng.random() < 0.25 and trans:
+        # an edit script applied through the public mutators after the first round of queries
+        edits = []
+        for _ in range(rng.randint(1, 3)):
+            r = rng.random()
+            if r < 0.5:
+                edits.append(["rm_t"] + list(rng.choice(case["trans"])))
+            elif r < 0.65 and case["final"]:
+                edits.append(["rm_f", rng.choice(case["final"])])
+            elif r < 0.8 and case["start"]:
+                edits.append(["rm_s", rng.choice(case["start"])])
+            elif kind != "dfa":
+                edits.append(["add_t", rng.randrange(max(n, 1)), rng.randrange(k), rng.randrange(max(n, 1))])
+            else:
+                edits.append(["add_f", rng.randrange(max(n, 1))])
+        case["edits"] = edits
+    return case
+
+
+def apply_edits(fa, case):
+    """the edit script of a case through remove_transition / remove_*_state / add_*"""
+    for e in case.get("edits", ()):
+        try:
+            if e[0] == "rm_t":
+                fa.remove_transition(sval(case, e[1]), aval(case, e[2]), sval(case, e[3]))
+            elif e[0] == "rm_f":
+                fa.remove_final_state(sval(case, e[1]))
+            elif e[0] == "rm_s":
+                fa.remove_start_state(sval(case, e[1]))
+            elif e[0] == "add_t":
+                fa.add_transition(sval(case, e[1]), aval(case, e[2]), sval(case, e[3]))
+            elif e[0] == "add_f":
+                fa.add_final_state(sval(case, e[1]))
+        except Exception:
+            pass
+
+
+def random_loop_case(rng, max_states=4, token=True, vcs=None):
+    """a chain start -> ... -> final with an edge from the final state back to the start state (epsilon or a
+    symbol), optionally self loops and chords: the shapes of the two-state closed form of to_regex"""
+    n = rng.randint(2, max_states)
+    k = rng.randint(1, 3)
+    trans = [[i, rng.randrange(k), i + 1] for i in range(n - 1)]
+    back = EPSID if rng.random() < 0.6 else rng.randrange(k)
+    trans.append([n - 1, back, 0])
+    if rng.random() < 0.3:
+        trans.append([rng.randrange(n), rng.randrange(k), rng.randrange(n)])
+    if rng.random() < 0.3:
+        s = rng.randrange(n)
+        trans.append([s, rng.randrange(k), s])
+    seen = []
+    for t in trans:
+        if t not in seen:
+            seen.append(t)
+    vc = rng.choice(vcs or ["int", "str", "merged"])
+    case = {"kind": "enfa", "n": n, "k": k, "start": [0], "final": [n - 1], "trans": seen, "extra": [], "vc": vc,
+            "token": token, "loop": True}
+    if rng.random() < 0.5:
+        case["shuffle"] = rng.randrange(1 << 30)
     return case
 
 
